@@ -70,6 +70,13 @@ enum Log {
         queued: u64,
         submitted: u64,
     },
+    /// a concurrent read of panics() together with what the log said at that moment:
+    /// panics logged so far, and panics logged before the latest invocation of the wrapped sink
+    PanicSample {
+        panics: u64,
+        logged: u64,
+        before_latest_call: u64,
+    },
 }
 
 const MARK_EMIT_CALL: usize = 1;
@@ -513,6 +520,17 @@ impl Scenario for QueueScn {
                                         if let Ok((queued, submitted)) = r {
                                             sh.push(Log::Sample { queued, submitted });
                                         }
+                                        if let Ok(panics) = panic::catch_unwind(AssertUnwindSafe(|| q.panics())) {
+                                            let mut log = sh.log.lock().unwrap();
+                                            let logged = log.iter().filter(|l| matches!(l, Log::SinkPanic(_))).count() as u64;
+                                            let last_call = log.iter().rposition(|l| matches!(l, Log::SinkCall(..))).unwrap_or(0);
+                                            let before = log[..last_call].iter().filter(|l| matches!(l, Log::SinkPanic(_))).count() as u64;
+                                            log.push(Log::PanicSample {
+                                                panics,
+                                                logged,
+                                                before_latest_call: before,
+                                            });
+                                        }
                                     }
                                     drop_handle(&sh, q, 99);
                                 }));
@@ -910,6 +928,12 @@ fn judge(scn: &QueueScn, end: &EndState, sh: &Shared) -> Verdict {
                         }
                     }
                 }
+                Log::PanicSample { panics, logged, before_latest_call } => {
+                    // a metric that follows a panic is only handed over once the panic has been counted
+                    if *panics < *before_latest_call || *panics > *logged {
+                        br(&mut out, &["C11"], "panic-count-lags", format!("a concurrent read saw panics()={} when {} panics had happened, {} of them before the wrapped sink was handed its latest metric", panics, logged, before_latest_call));
+                    }
+                }
                 Log::Sample { queued, submitted } => {
                     flags.push("sampled");
                     if *queued > *submitted || *queued > total_emits || *submitted > total_emits {
@@ -941,6 +965,7 @@ fn judge(scn: &QueueScn, end: &EndState, sh: &Shared) -> Verdict {
             Log::SinkCall(_, m, _) => Some(format!("S{}", m)),
             Log::Counters { panics, submitted, drained, queued, .. } => Some(format!("R{}/{}/{}/{}", panics, submitted, drained, queued)),
             Log::Sample { queued, submitted } => Some(format!("s{}/{}", queued, submitted)),
+            Log::PanicSample { panics, .. } => Some(format!("ps{}", panics)),
             Log::Handler(id, _) => Some(format!("H{:?}", id)),
             Log::FlushEnd { ok, .. } => Some(format!("F{}", ok)),
             _ => None,
